@@ -104,6 +104,10 @@ def _arr(dense, dtype):
     np = _setup()["np"]
     if isinstance(dense, tuple) and dense and dense[0] == "zeros":
         return np.zeros(tuple(dense[1]), dtype=dtype)
+    if dtype == "complex128":
+        # descriptors carry real numbers only (JSON replays): a complex operand is the real array times (1+2j), so every
+        # non-zero element has a non-zero imaginary part (seeded C17-m6: conjugation keyed on the wrong operand)
+        return np.array(dense, dtype="float64") * (1 + 2j)
     return np.array(dense, dtype=dtype)
 
 
@@ -514,7 +518,10 @@ def templates(label, sps, nptab, rng, fmt, tier):
         x = _sp(rng, fmt, (2, 3), 0)
         if label == "vecdot":
             y = _sp(rng, fmt, (2, 3), 0)
-            return [([x, y], {}, "sparse_sparse"), ([x, _nd(rng, (2, 3))], {}, "sparse_ndarray")]
+            xc, yc = _sp(rng, fmt, (2, 3), 0, dtype="complex128"), _sp(rng, fmt, (2, 3), 0, dtype="complex128")
+            xf = _sp(rng, fmt, (2, 3), 0, dtype="float64")
+            return [([x, y], {}, "sparse_sparse"), ([x, _nd(rng, (2, 3))], {}, "sparse_ndarray"),
+                    ([xc, xf], {}, "complex_real"), ([xf, xc], {}, "real_complex"), ([xc, yc], {}, "complex_complex")]
         y = _sp(rng, fmt, (3, 2), 0)
         V.append(([x, y], {}, "sparse_sparse"))
         V.append(([x, _nd(rng, (3, 2))], {}, "sparse_ndarray"))
@@ -696,6 +703,8 @@ def _show_call(sp, ad, kd):
                     "gcxs": "sparse.GCXS.from_numpy(%s, compressed_axes=%r)" % (z, d[2])}[d[1]]
         if d[0] == "sp":
             arr = "np.array(%r)" % (d[3],) if d[5] == "int64" else "np.array(%r, dtype=%r)" % (d[3], d[5])
+            if d[5] == "complex128":
+                arr = "(np.array(%r, dtype='float64') * (1+2j))" % (d[3],)
             return {"coo": "sparse.COO.from_numpy(%s, fill_value=%r)" % (arr, d[4]),
                     "dok": "sparse.COO.from_numpy(%s, fill_value=%r).asformat('dok')" % (arr, d[4]),
                     "gcxs": "sparse.GCXS.from_numpy(%s, compressed_axes=%r, fill_value=%r)" % (arr, d[2], d[4])}[d[1]]
@@ -971,11 +980,14 @@ def _subns_args(rng, fmt):
         ca = None          # GCXS cannot compress all axes of a 2-d array (same rule as _sp)
     neg = ("sp", fmt[0], ca, [[-4.0, 0.0, 9.0], [0.0, -1.0, 0.0]], 0, "float64")
     x23, y23 = _sp(rng, fmt, (2, 3), 0, "float64"), _sp(rng, fmt, (2, 3), 0, "float64")
+    xc23, yc23 = _sp(rng, fmt, (2, 3), 0, "complex128"), _sp(rng, fmt, (2, 3), 0, "complex128")
     return {
         "linalg.diagonal": [[_sp(rng, fmt, (2, 2, 3), 0, "float64")], [_sp(rng, fmt, (3, 3, 2), 0, "float64")]],
         "linalg.outer": [[x23, y23]],                                   # NumPy demands 1-d operands
         "linalg.matmul": [[x23, _sp(rng, fmt, (3, 2), 0, "float64")]],
-        "linalg.vecdot": [[x23, y23]],
+        "linalg.vecdot": [[x23, y23], [xc23, x23], [x23, xc23], [xc23, yc23]],
+        # complex operands against NumPy on the dense operands: conjugation of the FIRST operand only (seeded C17-m6)
+        "vecdot": [[xc23, x23], [x23, xc23], [xc23, yc23]],
         "linalg.matrix_transpose": [[x23]],
         "linalg.trace": [[_sp(rng, fmt, (3, 3), 0, "float64")]],
         "linalg.cross": [[x23, y23]],
